@@ -271,3 +271,31 @@ fn c14_q_hard_error_chunk_read() {
     }
     kani::cover!(true);
 }
+
+/// C14 at chunk-list level: a hard I/O error inside the payload of the first of two declared chunks: Chunk::read_all
+/// returns the IoError variant carrying that kind -- it does not hand back the chunks read so far
+#[kani::proof]
+#[kani::unwind(6)]
+#[kani::stub(alloc::fmt::format, crate::vklib::empty_format)]
+fn c14_q_hard_error_read_all() {
+    const AT: [usize; 2] = [7, 9];
+    const KINDS: [std::io::ErrorKind; 2] = [std::io::ErrorKind::TimedOut, std::io::ErrorKind::Other];
+    for k in 0..2 {
+        let mut b: [u8; 10] = kani::any();
+        b[0] = 10; // declared size 10
+        b[1] = 0;
+        b[2] = 0;
+        b[3] = 0;
+        b[4] = 0x06; // cel extra
+        b[5] = 0x20;
+        let mut reader = AseReader::with(LimitReader { data: &b, pos: 0, limit: AT[k], fault: Some(KINDS[k]) });
+        let r = Chunk::read_all(2, 1000, &mut reader);
+        match &r {
+            Ok(_) => assert!(false, "the reader failed before the declared chunks were delivered: no chunk list"),
+            Err(AsepriteParseError::IoError(e)) => assert!(e.kind() == KINDS[k], "the reader's error kind is preserved"),
+            Err(_) => assert!(false, "an I/O failure is reported as the IoError variant"),
+        }
+        core::mem::forget(r);
+    }
+    kani::cover!(true);
+}
